@@ -64,6 +64,7 @@ type wConn struct {
 	returned bool // websocket.Handle returned on the server side
 	entered  bool
 	readDone chan struct{}
+	resume   chan struct{}
 	stalled  bool // client stopped reading
 	closed   bool
 }
@@ -94,6 +95,7 @@ type WWorld struct {
 	gen      map[int]int
 	sessions map[*models.Session]bool
 	handlers sync.WaitGroup
+	clients0 float64 // ws_connected_clients when the world was created
 }
 
 func NewWWorld(cfg Config, o WOpts) *WWorld {
@@ -117,6 +119,7 @@ func NewWWorld(cfg Config, o WOpts) *WWorld {
 	w := &WWorld{cfg: cfg, opts: o, store: &models.SessionStore{DiscoveryService: testDS{}}, receipts: make(chan ncsclient.ReceiptPayload, capn),
 		frame: fr, conns: map[int]*wConn{}, pending: map[string]*wConn{}, gen: map[int]int{}, sessions: map[*models.Session]bool{},
 		ln: &pipeListener{ch: make(chan net.Conn), closed: make(chan struct{})}}
+	w.clients0 = gaugeValue("ws_connected_clients")
 	w.ctx, w.cancel = context.WithCancel(context.Background())
 	wsrv := websocket.Server{
 		Handshake: func(*websocket.Config, *http.Request) error { return nil },
@@ -222,7 +225,7 @@ func (w *WWorld) Ended(slot int) bool {
 
 func (w *WWorld) Connect(slot int) {
 	w.gen[slot]++
-	c := &wConn{slot: slot, gen: w.gen[slot], clientID: fmt.Sprintf("client-%d-%d", slot, w.gen[slot]), readDone: make(chan struct{})}
+	c := &wConn{slot: slot, gen: w.gen[slot], clientID: fmt.Sprintf("client-%d-%d", slot, w.gen[slot]), readDone: make(chan struct{}), resume: make(chan struct{})}
 	cli, srv := net.Pipe()
 	c.raw = cli
 	w.mu.Lock()
@@ -249,6 +252,13 @@ func (w *WWorld) Connect(slot int) {
 func (c *wConn) readLoop() {
 	defer close(c.readDone)
 	for {
+		c.mu.Lock()
+		st := c.stalled
+		c.mu.Unlock()
+		if st {
+			<-c.resume
+			continue
+		}
 		var b []byte
 		if err := websocket.Message.Receive(c.ws, &b); err != nil {
 			return
@@ -344,6 +354,12 @@ func (w *WWorld) Advance(d time.Duration) {
 
 func (w *WWorld) Shutdown() {
 	for _, c := range w.all {
+		c.mu.Lock()
+		if c.stalled {
+			c.stalled = false
+			close(c.resume)
+		}
+		c.mu.Unlock()
 		if !c.closed {
 			c.closed = true
 			c.ws.Close()
@@ -365,5 +381,94 @@ func (w *WWorld) Shutdown() {
 	for s := range w.sessions {
 		s.Close()
 	}
+	synctest.Wait()
+}
+
+// Leaks: after every client has gone, every handler must have returned, no
+// goroutine of a connection or session may remain and the connected-clients
+// gauge must be back at its previous value.
+func (w *WWorld) Leaks() []string {
+	var out []string
+	synctest.Wait()
+	for _, c := range w.all {
+		c.mu.Lock()
+		if c.entered && !c.returned {
+			out = append(out, fmt.Sprintf("the handler of connection c%d.%d has not returned", c.slot, c.gen))
+		}
+		c.mu.Unlock()
+	}
+	for _, fn := range []string{"websocket.(*handler).startSending", "websocket.(*handler).startReceiving", "websocket.(*handlerWithLogs).startSummaryWorker", "websocket.(*handler).Handle", "models.(*Session).StartDispatchFrames"} {
+		if n := countGoroutines(fn); n != 0 {
+			out = append(out, fmt.Sprintf("%d goroutine(s) still in %s", n, fn))
+		}
+	}
+	if g := gaugeValue("ws_connected_clients") - w.clients0; g != 0 {
+		out = append(out, fmt.Sprintf("ws_connected_clients is off by %v from its value before the connections", g))
+	}
+	return out
+}
+
+func (w *WWorld) Settle() { synctest.Wait() }
+
+// Stall: the client stops reading (after at most one message that its reader
+// was already waiting for).
+func (w *WWorld) Stall(slot int) {
+	if c := w.conns[slot]; c != nil {
+		c.mu.Lock()
+		c.stalled = true
+		c.mu.Unlock()
+	}
+}
+
+// Abort drops the transport without a WebSocket close frame.
+func (w *WWorld) Abort(slot int) {
+	c := w.conns[slot]
+	if c == nil || c.closed {
+		return
+	}
+	c.closed = true
+	c.raw.Close()
+	synctest.Wait()
+}
+
+// wsFrame builds one masked binary client frame.
+func wsFrame(payload []byte) []byte {
+	b := []byte{0x82}
+	n := len(payload)
+	switch {
+	case n < 126:
+		b = append(b, 0x80|byte(n))
+	case n < 65536:
+		b = append(b, 0x80|126, byte(n>>8), byte(n))
+	default:
+		b = append(b, 0x80|127, 0, 0, 0, 0, byte(n>>24), byte(n>>16), byte(n>>8), byte(n))
+	}
+	key := [4]byte{0x11, 0x22, 0x33, 0x44}
+	b = append(b, key[:]...)
+	for i, c := range payload {
+		b = append(b, c^key[i%4])
+	}
+	return b
+}
+
+// SendBurst writes all frames with a single transport write, as a client on a
+// real network does when it pipelines requests: the server finds them all in
+// its read buffer.
+func (w *WWorld) SendBurst(slot int, frames [][]byte) {
+	c := w.conns[slot]
+	if c == nil || c.closed {
+		return
+	}
+	var buf []byte
+	for _, f := range frames {
+		buf = append(buf, wsFrame(f)...)
+	}
+	done := make(chan struct{})
+	go func() {
+		defer close(done)
+		c.raw.SetWriteDeadline(time.Now().Add(time.Minute))
+		c.raw.Write(buf)
+		c.raw.SetWriteDeadline(time.Time{})
+	}()
 	synctest.Wait()
 }
